@@ -113,29 +113,60 @@ func c06Reparent(e *Env) {
 			key := fmt.Sprintf("%s:split#%d:%s", fname, nSplit, f.Name())
 			pos := w.Pos(as.Pos())
 			r.Check(moved[f], rule, key+":moved", pos, "field "+f.Name()+" of the split node is handed to the new node", "newNode does not receive "+base.Name()+"."+f.Name()+": that subtree is lost by the split")
-			reparented, cleared := false, false
+			cleared := false
 			_, isSlice := f.Type().Underlying().(*types.Slice)
 			// only unconditional statements of the split block count, or statements guarded by
 			// nothing but a nil test of the same field (`if cur.F != nil { cur.F.parent = n }`);
 			// an else-branch or any other condition makes the step conditional on something else
-			isNilGuardOf := func(is *ast.IfStmt) bool {
-				be, ok := unparen(is.Cond).(*ast.BinaryExpr)
-				if !ok || be.Op != token.NEQ || is.Init != nil {
-					return false
-				}
-				id, ok := unparen(be.Y).(*ast.Ident)
-				return ok && id.Name == "nil" && usedVar(info, be.X) == f
-			}
-			var flat []ast.Stmt
-			for _, s := range after {
-				switch x := s.(type) {
-				case *ast.IfStmt:
-					if isNilGuardOf(x) {
-						flat = append(flat, x.Body.List...) // the else part (if any) is ignored
+			flatten := func(finfo *types.Info, stmts []ast.Stmt) []ast.Stmt {
+				var flat []ast.Stmt
+				for _, s := range stmts {
+					switch x := s.(type) {
+					case *ast.IfStmt:
+						be, ok := unparen(x.Cond).(*ast.BinaryExpr)
+						if !ok || be.Op != token.NEQ || x.Init != nil {
+							continue
+						}
+						if id, ok := unparen(be.Y).(*ast.Ident); ok && id.Name == "nil" && usedVar(finfo, be.X) == f {
+							flat = append(flat, x.Body.List...) // the else part (if any) is ignored
+						}
+					default:
+						flat = append(flat, s)
 					}
-				default:
-					flat = append(flat, s)
 				}
+				return flat
+			}
+			// reparents: one of the statements gives the nodes in field f the parent nv
+			reparents := func(finfo *types.Info, s ast.Stmt, nv *types.Var) bool {
+				switch x := s.(type) {
+				case *ast.RangeStmt:
+					if isSlice && usedVar(finfo, x.X) == f {
+						if vid, ok := x.Value.(*ast.Ident); ok {
+							ev := finfo.ObjectOf(vid)
+							for _, bs := range x.Body.List {
+								if a2, ok := bs.(*ast.AssignStmt); ok && len(a2.Lhs) == 1 && len(a2.Rhs) == 1 {
+									if se, ok := unparen(a2.Lhs[0]).(*ast.SelectorExpr); ok && usedVar(finfo, se) == parent {
+										if id, ok := unparen(se.X).(*ast.Ident); ok && finfo.ObjectOf(id) == ev && usedVar(finfo, a2.Rhs[0]) == nv {
+											return true
+										}
+									}
+								}
+							}
+						}
+					}
+				case *ast.AssignStmt:
+					if len(x.Lhs) == 1 && len(x.Rhs) == 1 {
+						if se, ok := unparen(x.Lhs[0]).(*ast.SelectorExpr); ok {
+							// cur.F.parent = n
+							if !isSlice && usedVar(finfo, se) == parent && usedVar(finfo, x.Rhs[0]) == nv {
+								if inner, ok := unparen(se.X).(*ast.SelectorExpr); ok && usedVar(finfo, inner) == f {
+									return true
+								}
+							}
+						}
+					}
+				}
+				return false
 			}
 			// the variable holding the split-off node must still hold it when it is used as the new
 			// parent: no assignment to it (in any nested branch) between the split and that statement
@@ -153,39 +184,53 @@ func c06Reparent(e *Env) {
 				})
 				return ok
 			}
-			for _, s := range flat {
+			reparented := false
+			for _, s := range flatten(info, after) {
+				if x, ok := s.(*ast.AssignStmt); ok && len(x.Lhs) == 1 && len(x.Rhs) == 1 {
+					// cur.F = nil
+					if se, ok := unparen(x.Lhs[0]).(*ast.SelectorExpr); ok && usedVar(info, se) == f && usedVar(info, se.X) == base {
+						if id, ok := unparen(x.Rhs[0]).(*ast.Ident); ok && id.Name == "nil" {
+							cleared = true
+						}
+					}
+				}
 				if !stillSplit(s.Pos()) {
 					continue
 				}
-				switch x := s.(type) {
-				case *ast.RangeStmt:
-					if isSlice && usedVar(info, x.X) == f {
-						if vid, ok := x.Value.(*ast.Ident); ok {
-							ev := info.ObjectOf(vid)
-							for _, bs := range x.Body.List {
-								if a2, ok := bs.(*ast.AssignStmt); ok && len(a2.Lhs) == 1 && len(a2.Rhs) == 1 {
-									if se, ok := unparen(a2.Lhs[0]).(*ast.SelectorExpr); ok && usedVar(info, se) == parent {
-										if id, ok := unparen(se.X).(*ast.Ident); ok && info.ObjectOf(id) == ev && usedVar(info, a2.Rhs[0]) == nVar {
-											reparented = true
-										}
+				if reparents(info, s, nVar) {
+					reparented = true
+				}
+				// a helper of the package that receives the old node and the split node and does the
+				// re-parenting in its (unconditional) body: cur.reparentChildren(n)
+				if es, ok := s.(*ast.ExprStmt); ok {
+					if call, ok := es.X.(*ast.CallExpr); ok {
+						if d := w.DeclOf(calleeOf(info, call)); d != nil && d.Pkg == ins.Pkg && d.Decl.Body != nil {
+							sig := d.Obj.Type().(*types.Signature)
+							var nv *types.Var
+							oldBound := false
+							if se, ok := unparen(call.Fun).(*ast.SelectorExpr); ok && sig.Recv() != nil {
+								if usedVar(info, se.X) == nVar {
+									nv = sig.Recv()
+								}
+								if usedVar(info, se.X) == base {
+									oldBound = true
+								}
+							}
+							for ai, a := range call.Args {
+								if ai < sig.Params().Len() {
+									if usedVar(info, a) == nVar {
+										nv = sig.Params().At(ai)
+									}
+									if usedVar(info, a) == base {
+										oldBound = true
 									}
 								}
 							}
-						}
-					}
-				case *ast.AssignStmt:
-					if len(x.Lhs) == 1 && len(x.Rhs) == 1 {
-						if se, ok := unparen(x.Lhs[0]).(*ast.SelectorExpr); ok {
-							// cur.F.parent = n
-							if !isSlice && usedVar(info, se) == parent && usedVar(info, x.Rhs[0]) == nVar {
-								if inner, ok := unparen(se.X).(*ast.SelectorExpr); ok && usedVar(info, inner) == f {
-									reparented = true
-								}
-							}
-							// cur.F = nil
-							if usedVar(info, se) == f && usedVar(info, se.X) == base {
-								if id, ok := unparen(x.Rhs[0]).(*ast.Ident); ok && id.Name == "nil" {
-									cleared = true
+							if nv != nil && oldBound {
+								for _, hs := range flatten(d.Pkg.TypesInfo, d.Decl.Body.List) {
+									if reparents(d.Pkg.TypesInfo, hs, nv) {
+										reparented = true
+									}
 								}
 							}
 						}
